@@ -6,8 +6,12 @@ import BnpVerif.Props.C04Sam
 import BnpVerif.Props.C04Bam
 import BnpVerif.Props.C04Cr
 import BnpVerif.Props.C04Laws
+import BnpVerif.Props.C04Write
+import BnpVerif.Props.C04Fields
 /-! C04 property theorems: `C04Core` (refinement of the extractor to a list of records, programs,
 fields, modified writes, BAM, checker soundness, refutation of the shipped record-end rule) and
 `C04Build` (the construction from a raw chunk, for all well-formed delimited files, LF/CRLF/mixed) and
 `C04KLine` (the same for the k-line formats FASTQ / two-line FASTA). The audited theorems
-are listed in `Audit/C04.lean`. -/
+are listed in `Audit/C04.lean`. `C04Write`: modified writes about the Model functions the driver runs
+(`Ext.writeModified`, `writeRowsModified`). `C04Fields`: SOURCE-LEVEL field text (FASTQ/FASTA lines without header byte / CR, SAM
+columns and tags, VCF rest-of-line, last column on LF/CRLF/mixed files) and the bridge to the driver's `evalTab`. -/
